@@ -507,7 +507,8 @@ def _slot_guard_nodes(ctx, L, g):
     out = []
     slotkeys = set()
     for w in L['slot_writes']:
-        slotkeys.add(F.keys.key(kids(w['node'])[0]))
+        if w['node'].get('kind') == 'BinaryOperator':
+            slotkeys.add(F.keys.key(kids(w['node'])[0]))
     for n in g.live:
         if n.kind == 'cond':
             for (op, a, b) in F.cond_facts(n.ast, True):
